@@ -251,6 +251,30 @@ pub fn run_c13(ctx: &mut Ctx) {
             }
         }
     }
+    // ---- ... nor does a value decoded just before influence it (a client's Block option, then the next block)
+    if shard == 0 || level == 0 {
+        for num in [0u32, 1, 14, 4095, 4096, 65534, 65535] {
+            for more in [false, true] {
+                for szx in 0..7u8 {
+                    let scalar: u64 = (num as u64) << 4 | (more as u64) << 3 | szx as u64;
+                    let enc = min_be(scalar);
+                    let size = 1usize << (szx + 4);
+                    for (n2, m2, s2) in [(num as usize + 1, false, size), (num as usize + 1, true, size), (num as usize, more, size), (num as usize + 1, true, size + 1), (65536, true, size), (0, true, 0), (1, false, 4096)] {
+                        rep.eval();
+                        let res = guard(|| (BlockValue::try_from(enc.clone()).is_ok(), BlockValue::new(n2, m2, s2)));
+                        let should_fail = s2 == 0 || s2 >= 4096 || n2 > 65535;
+                        let wit = format!("decode {} (num {}, more {}, szx {}), then BlockValue::new({}, {}, {})", hex(&enc), num, more, szx, n2, m2, s2);
+                        match res {
+                            Err(p) => rep.violation(&p.sig(), p.text(), wit),
+                            Ok((true, Ok(v))) if !should_fail && v.num as usize == n2 && v.more == m2 && (v.size_exponent as usize) == ((usize::BITS - 1 - s2.leading_zeros()) as usize).max(4) - 4 => rep.count("new_after_decode_ok"),
+                            Ok((true, Err(_))) if should_fail => rep.count("new_after_decode_ok"),
+                            Ok((dec_ok, other)) => rep.violation("block-new-depends-on-previous-decode", format!("decode ok {}; constructor returned {:?}", dec_ok, other), wit),
+                        }
+                    }
+                }
+            }
+        }
+    }
     // ---- fresh-process probes
     if shard == 0 {
         cold_start_probes(rep, level);
